@@ -51,6 +51,9 @@ enum Op {
     /// soft_reset_out whose event the session task takes off its channel but does not handle
     /// before the next sync: the refresh then walks a RIB that is AHEAD of the changes queued behind it
     SoftResetOutQueued,
+    /// the daemon is a restarting speaker: selection deferral starts before the first route (RFC 4724 §4.1)
+    StartDeferral,
+    EndDeferral,
     RouteRefresh,
     /// toggle the global export policy (none <-> reject prefix P2) without telling anybody
     PolicySwap,
@@ -73,6 +76,8 @@ fn op_name(o: &Op) -> String {
         Op::DropStale { src } => format!("stale_purge({})", s(src)),
         Op::SoftResetOut => "soft_reset_out".into(),
         Op::SoftResetOutQueued => "soft_reset_out(handled only at the next sync)".into(),
+        Op::StartDeferral => "selection_deferral_starts".into(),
+        Op::EndDeferral => "selection_deferral_ends".into(),
         Op::RouteRefresh => "route_refresh(from neighbour)".into(),
         Op::PolicySwap => "export_policy_swap".into(),
         Op::ConnectHeld => "neighbour_session_established(held before its first flush)".into(),
@@ -106,6 +111,8 @@ pub(crate) struct RibState {
     src_down: [bool; 2],
     policy: Arc<table::PolicyAssignment>,
     policy_on: bool,
+    deferring: bool,
+    touched: bool,
 }
 
 pub(crate) struct Sys {
@@ -225,6 +232,8 @@ impl PipeModel {
             src_down: [false, false],
             policy: if self.policy_sets_med { set_med_export() } else { reject_lp100_export() },
             policy_on: false,
+            deferring: false,
+            touched: false,
         }
     }
 
@@ -299,8 +308,24 @@ impl PipeModel {
                 st.policy_on = !st.policy_on;
                 tables.export_policy.store(if st.policy_on { Some(st.policy.clone()) } else { None });
             }
+            Op::StartDeferral => {
+                // at start-up only: before the family's RIB has been touched
+                if st.touched || st.deferring {
+                    return false;
+                }
+                tables.start_deferral_families(&[F]);
+                st.deferring = true;
+            }
+            Op::EndDeferral => {
+                if !st.deferring {
+                    return false;
+                }
+                tables.end_deferral_families(&[F]);
+                st.deferring = false;
+            }
             _ => {}
         }
+        st.touched = true;
         true
     }
 
@@ -453,6 +478,8 @@ impl Model for PipeModel {
             Op::SoftResetOut | Op::SoftResetOutQueued => "soft_reset_out",
             Op::RouteRefresh => "route_refresh",
             Op::PolicySwap => "policy_swap",
+            Op::StartDeferral => "deferral_start",
+            Op::EndDeferral => "deferral_end",
             Op::ConnectHeld => "session_up",
             Op::Sync => "sync",
         };
@@ -461,7 +488,7 @@ impl Model for PipeModel {
         }
 
         match o {
-            Op::Announce { .. } | Op::Withdraw { .. } | Op::PeerDown { .. } | Op::PeerDownStale { .. } | Op::MarkLlgr { .. } | Op::DropStale { .. } | Op::Nh { .. } | Op::PolicySwap => {
+            Op::Announce { .. } | Op::Withdraw { .. } | Op::PeerDown { .. } | Op::PeerDownStale { .. } | Op::MarkLlgr { .. } | Op::DropStale { .. } | Op::Nh { .. } | Op::PolicySwap | Op::StartDeferral | Op::EndDeferral => {
                 if !self.rib_apply(&tables, &mut sys.st, o) {
                     return false;
                 }
@@ -567,7 +594,8 @@ impl Model for PipeModel {
                 sys.dirty = true;
             }
             Op::Sync => {
-                if !sys.dirty || sys.policy_pending_reset || sys.conn.is_none() {
+                // while selection is deferred nothing is advertised (C11); views are compared afterwards
+                if !sys.dirty || sys.policy_pending_reset || sys.conn.is_none() || sys.st.deferring {
                     return false;
                 }
                 sys.dirty = false;
@@ -646,7 +674,7 @@ impl Model for PipeModel {
                                     }
                                 }
                                                 // shape class: observer kind + the most specific kind of event since the last sync
-                                let trigger = ["llgr_start", "policy_swap", "announce-by-neighbour", "peer_down_gr", "stale_purge", "nexthop", "peer_down", "route_refresh", "soft_reset_out", "withdraw", "announce"]
+                                let trigger = ["deferral_end", "llgr_start", "policy_swap", "announce-by-neighbour", "peer_down_gr", "stale_purge", "nexthop", "peer_down", "route_refresh", "soft_reset_out", "withdraw", "announce"]
                                     .iter()
                                     .find(|k| sys.since_sync.contains(*k))
                                     .copied()
@@ -739,7 +767,7 @@ impl Model for PipeModel {
         let mut loc: Vec<String> = sys.d.tables.collect_loc_rib_paths(F).iter().map(|c| format!("{}#{}:{:?}", c.net, c.dest_id, c.current_paths.iter().map(|p| (p.local_path_id, p.source.remote_addr, p.nexthop.map(|n| n.addr()))).collect::<Vec<_>>())).collect();
         loc.sort();
         // what is queued for the observer is determined by the ops since the last sync: keep them distinct
-        format!("{:?}|{:?}|{:?}|{:?}|{:?}|{}|{}|{:?}|{}|{:?}|{:?}", rib, loc, sys.mirror, sys.st.src_epoch, sys.st.nh_down, sys.st.policy_on, sys.dirty, sys.broken, sys.dead, sys.st.src_down, (sys.policy_pending_reset, sys.conn.is_some(), crate::verif::gate::parked(Arc::as_ptr(&sys.d.tables) as usize, OBS), sys.ev_held, &sys.unsynced)).into_bytes()
+        format!("{:?}|{:?}|{:?}|{:?}|{:?}|{}|{}|{:?}|{}|{:?}|{:?}", rib, loc, sys.mirror, sys.st.src_epoch, sys.st.nh_down, sys.st.policy_on, sys.dirty, sys.broken, sys.dead, sys.st.src_down, (sys.policy_pending_reset, sys.conn.is_some(), crate::verif::gate::parked(Arc::as_ptr(&sys.d.tables) as usize, OBS), sys.ev_held, sys.st.deferring, sys.st.touched, &sys.unsynced)).into_bytes()
     }
 
     fn observe(&self, sys: &Sys) -> u64 {
@@ -775,9 +803,26 @@ fn pick_nets(shards: usize) -> Vec<packet::Nlri> {
     same
 }
 
+fn pick_nets_spread(shards: usize) -> Vec<packet::Nlri> {
+    // P1 and P3 on shard 0, P2 on another shard (the real dealer hash decides)
+    let probe = TableManager::new(shards);
+    let src = Arc::new(table::Source::new(IpAddr::V4(Ipv4Addr::new(10, 1, 0, 9)), IpAddr::V4(Ipv4Addr::new(10, 1, 0, 254)), 65001, 65000, Ipv4Addr::new(10, 1, 0, 9), table::PeerRole::Ebgp));
+    let (mut on0, mut other) = (Vec::new(), Vec::new());
+    for k in 0..60u8 {
+        let n = packet::Nlri::V4(packet::bgp::Ipv4Net { addr: Ipv4Addr::new(10, 70, k, 0), mask: 24 });
+        probe.insert_route(src.clone(), F, packet::PathNlri::new(n.clone()), Some(nh(0)), attrs(0, 65001), None, 0);
+        if probe.shards[0].lock().unwrap().rtable.iter_reach(F).any(|r| r.net.nlri == n) {
+            on0.push(n);
+        } else {
+            other.push(n);
+        }
+    }
+    vec![on0[0].clone(), other[0].clone(), on0[1].clone()]
+}
+
 fn models(thorough: bool) -> Vec<PipeModel> {
     let mk = |name: &str, role: ObsRole, send_max: usize, shards: usize, pack: &str| {
-        let nets = pick_nets(shards);
+        let nets = if pack == "restart" { pick_nets_spread(shards) } else { pick_nets(shards) };
         let mut ops = Vec::new();
         match pack {
             // destination-id re-use: one source, three prefixes on one shard
@@ -855,6 +900,16 @@ fn models(thorough: bool) -> Vec<PipeModel> {
         }
         // a refresh that runs AHEAD of the changes queued behind it: a prefix leaves the RIB and its
         // destination id is re-issued to a prefix this neighbour may not be sent (split horizon, its own route)
+        // restarting speaker: routes arrive while selection is deferred, prefixes on DIFFERENT shards
+        if pack == "restart" {
+            ops.clear();
+            ops.push(Op::StartDeferral);
+            ops.push(Op::Announce { src: 0, pfx: 0, attr: 0, nh: 0 });
+            ops.push(Op::Announce { src: 0, pfx: 1, attr: 0, nh: 0 });
+            ops.push(Op::Announce { src: 1, pfx: 2, attr: 1, nh: 1 });
+            ops.push(Op::Withdraw { src: 0, pfx: 0 });
+            ops.push(Op::EndDeferral);
+        }
         if pack == "ahead" {
             ops.clear();
             ops.push(Op::Announce { src: 0, pfx: 1, attr: 1, nh: 0 });
@@ -885,6 +940,7 @@ fn models(thorough: bool) -> Vec<PipeModel> {
         mk("c01-ebgp-late", ObsRole::Ebgp, 1, 1, "late"),
         mk("c01-ibgp-addpath2-late", ObsRole::Ibgp, 2, 1, "late"),
         mk("c01-ibgp-refresh-ahead", ObsRole::Ibgp, 1, 1, "ahead"),
+        mk("c01-ebgp-restart-2shards", ObsRole::Ebgp, 1, 2, "restart"),
     ];
     if thorough {
         v.push(mk("c01-ebgp-addpath2", ObsRole::Ebgp, 2, 1, "multi"));
@@ -897,6 +953,7 @@ fn models(thorough: bool) -> Vec<PipeModel> {
         v.push(mk("c01-addpath-idreuse", ObsRole::Ebgp, 2, 2, "idreuse"));
         v.push(mk("c01-ibgp-addpath2-refresh-ahead", ObsRole::Ibgp, 2, 1, "ahead"));
         v.push(mk("c01-ebgp-refresh-ahead", ObsRole::Ebgp, 1, 1, "ahead"));
+        v.push(mk("c01-ebgp-addpath2-restart-2shards", ObsRole::Ebgp, 2, 2, "restart"));
     }
     v
 }
@@ -936,7 +993,10 @@ pub(crate) fn run(replay: Option<&str>) -> Report {
         // (thorough: 7 / 5 - the state now contains the queued change events, which costs a
         // factor of ~15 in states against the earlier, unsound, fingerprint)
         // 20-op packs one (thorough: two) levels less; the small focused packs (<= 9 ops) one more
-        let d = if m.ops.len() > 16 { if thorough { depth - 2 } else { depth - 1 } } else if m.ops.len() <= 9 { depth + 1 } else { depth };
+        let d = if m.name.contains("restart") {
+            // the shortest histories of interest (deferral starts, two routes, deferral ends, sync) have 5 steps
+            if thorough { depth } else { 5 }
+        } else if m.ops.len() > 16 { if thorough { depth - 2 } else { depth - 1 } } else if m.ops.len() <= 9 { depth + 1 } else { depth };
         let cfg = BfsCfg { max_depth: d, max_secs: if thorough { 600 } else { 40 }, ..Default::default() };
         bfs::bfs(&m, &cfg, &mut rep);
         if let Some(e) = take_machinery() {
